@@ -211,6 +211,12 @@ class MainTransformer(object):
         if not target:
             message.warn_node(node,
                 "Can't find symbol '%s' referenced by \"rename-to\" annotation" % (rename_to, ))
+        elif not self._is_sibling(node, chain, target):
+            # shadows/shadowed-by are bare names resolved among the siblings of
+            # the element that carries them
+            message.warn_node(node,
+                "Function '%s' is not in the same scope as '%s', can't shadow it" % (
+                    rename_to, node.symbol))
         elif target.shadowed_by:
             message.warn_node(node,
                 "Function '%s' already shadowed by '%s', can't overwrite "
@@ -232,6 +238,15 @@ class MainTransformer(object):
         else:
             target.shadowed_by = node.name
             node.shadows = target.name
+
+    def _is_sibling(self, node, chain, target):
+        parent = chain[-1] if chain else None
+        if parent is None:
+            return self._namespace.get(target.name) is target
+        for attr in ('methods', 'static_methods', 'constructors'):
+            if any(target is f for f in getattr(parent, attr, [])):
+                return True
+        return False
 
     def _check_instance_parameter(self, node, block):
         if not node.is_method or not node.instance_parameter or not block:
